@@ -33,6 +33,9 @@ type Cfg struct {
 	NoStdlib      bool
 	Library       lisp.SourceLibrary
 	NoProbes      bool
+	// ProbesInLang also exports the host probe builtins from the language
+	// package, so packages created later by in-package see them.
+	ProbesInLang bool
 }
 
 // Event is one host-side observation made by the (probe ...) builtin or one of
@@ -115,6 +118,11 @@ func NewRuntime(cfg Cfg) *Rt {
 	}
 	rt.Env = env
 	if !cfg.NoProbes {
+		if cfg.ProbesInLang {
+			env.InPackage(lisp.Symbol(lisp.DefaultLangPackage))
+			rt.addProbes()
+			env.InPackage(lisp.Symbol(lisp.DefaultUserPackage))
+		}
 		rt.addProbes()
 	}
 	rt.Apply(cfg)
